@@ -101,6 +101,10 @@ class C05(Campaign):
                         d = rnd.choice(gen.DELAYS)
                         if d is not None:
                             r["post"] = d
+        # coroutine functions behind a signature-preserving decorator that publishes ``__signature__``
+        for c, m in sorted(prog["cbs"].items()):
+            if m.get("async") and not m.get("prop") and not m.get("style") and rnd.random() < 0.2:
+                m["wrapped"] = "sig"
         # plain functions that return an awaitable (the engine awaits what a callback returns)
         for c, m in sorted(prog["cbs"].items()):
             if not m.get("async") and m["group"] not in ("cond", "unless") and rnd.random() < 0.15:
